@@ -148,7 +148,10 @@ def _positional_placeholder(ctx, pp, style, styles):
         ctx.error(f"_process_positional: cannot evaluate the substitution callback for `{style}`: {e}")
 
 
-@R.rule("C04-R1", floor=43, template="T-TABLE/T-SIBLING",
+# floor: 26 instances are invariant (6 paramstyles x {template, positional, numeric, percent doubling} + the 2
+# non-numeric positional placeholders); the remaining instances are one per paramstyle literal in the dialect
+# packages (17 today), whose number changes when a dialect is reorganised -- the floor only asks for "some".
+@R.rule("C04-R1", floor=30, template="T-TABLE/T-SIBLING",
         desc="paramstyle vocabulary: BIND_TEMPLATES keys/values, DefaultDialect positional tuple, numeric test and "
              "marker, _process_positional placeholders, percent doubling set and all dialect paramstyle literals "
              "agree with the DBAPI paramstyle oracle")
@@ -288,28 +291,58 @@ def r2(ctx):
                   f"key(s) {multi} are not single characters but the translate regex is a character class", "", cls.loc,
                   nontrivial=False)
     ib = ctx.func(f"{COMP}::SQLCompiler._init_bind_translate")
-    srcs = [dotted(n) for n in ast.walk(ib.node) if isinstance(n, ast.Attribute) and n.attr == "bindname_escape_characters"]
-    stores = {t.attr for n in walk_local(ib.node) if isinstance(n, ast.Assign) for t in n.targets if isinstance(t, ast.Attribute)}
-    ctx.check(len(srcs) >= 2 and len(set(srcs)) == 1 and {"_bind_translate_re", "_bind_translate_chars"} <= stores, ib.key,
+    # both the regex and the table must derive from one and the same `<recv>.bindname_escape_characters`
+    # (directly or through locals)
+    srcs = {dotted(n) for n in ast.walk(ib.node) if isinstance(n, ast.Attribute) and n.attr == "bindname_escape_characters"}
+
+    def reads_table(e):
+        return any(isinstance(n, ast.Attribute) and n.attr == "bindname_escape_characters" for n in ast.walk(e))
+    seeds = {n for n, v, st in name_stores(ib.node) if v is not None and reads_table(v)}
+    derived = RC.derived_names(ib.node, seeds, include_nested=False) if seeds else set()
+    fed = set()
+    for n in walk_local(ib.node):
+        if isinstance(n, ast.Assign):
+            for t in n.targets:
+                if isinstance(t, ast.Attribute) and (reads_table(n.value) or any(
+                        isinstance(x, ast.Name) and x.id in derived for x in ast.walk(n.value))):
+                    fed.add(t.attr)
+    ctx.check(len(srcs) == 1 and {"_bind_translate_re", "_bind_translate_chars"} <= fed, ib.key,
               "the translate regex and the translate table are not both built from cls.bindname_escape_characters",
               "regex and table from one attribute", ib.loc)
-    # collision guard
+    # collision guard: anchored at bindparam_string (the entry point every bind name passes through); the translation
+    # and the check may live in the method itself or in a helper method it calls (one level)
     for cls in [base] + sorted(ix.subclasses(base), key=lambda c: c.key):
         f = cls.methods.get("bindparam_string")
         if f is None:
             continue
         ctx.functions_analysed.add(f.key)
-        subs = [c for c in calls_in(f.node) if (call_name(c) or "").endswith("_bind_translate_re.sub")]
-        if not subs:
-            continue
-        translated = {n for n, v, st in name_stores(f.node) if v is not None and any(c in list(ast.walk(v)) for c in subs)}
+        bodies = [f]
+        for c in calls_in(f.node):
+            if isinstance(c.func, ast.Attribute) and isinstance(c.func.value, ast.Name) and c.func.value.id in ("self", "cls"):
+                h = ix.resolve_method(cls, c.func.attr)
+                if h is not None and h.node is not f.node and h.name != "bindparam_string" and all(h is not b for b in bodies):
+                    bodies.append(h)
+        translated_anywhere = False
         guard = False
-        for n in walk_local(f.node):
-            if isinstance(n, ast.Compare) and isinstance(n.ops[0], (ast.In, ast.NotIn)) and isinstance(n.left, ast.Name) \
-                    and n.left.id in translated | {"name"} and (dotted(n.comparators[0]) or "").startswith("self."):
-                tgt = dotted(n.comparators[0])
-                if any(x in tgt for x in ("binds", "bind_names", "escaped_bind_names")):
-                    guard = True
+        for b in bodies:
+            aliases = RC.pure_alias_bindings(b.node)
+            subs = [c for c in calls_in(b.node) if isinstance(c.func, ast.Attribute) and c.func.attr == "sub"
+                    and (dotted(RC.substitute(c.func.value, aliases)) or "").endswith("_bind_translate_re")]
+            if not subs:
+                continue
+            translated_anywhere = True
+            ctx.functions_analysed.add(b.key)
+            translated = {n for n, v, st in name_stores(b.node) if v is not None and any(c in list(ast.walk(v)) for c in subs)}
+            translated = RC.derived_names(b.node, translated, include_nested=False) if translated else set()
+            params = {a.arg for a in b.node.args.args}
+            for n in walk_local(b.node):
+                if isinstance(n, ast.Compare) and isinstance(n.ops[0], (ast.In, ast.NotIn)) and isinstance(n.left, ast.Name) \
+                        and n.left.id in translated | (params & {"name"}):
+                    tgt = dotted(RC.substitute(n.comparators[0], aliases)) or ""
+                    if tgt.startswith("self.") and any(x in tgt for x in ("binds", "bind_names", "escaped_bind_names")):
+                        guard = True
+        if not translated_anywhere:
+            continue
         ctx.check(guard, f"{f.key}:escape-collision",
                   "a bind name is translated through the (non-injective, word-character valued) escape table without "
                   "checking that the result is not already the name of another parameter: `a.b` and `a_b` (or `a%b` and "
@@ -938,3 +971,39 @@ R.mutant("benign-r4-postcompile-if-statement-lookup", COMP, sub(
 R.mutant("r4-postcompile-conditional-lookup-keeps-original", COMP, sub(
     "            escaped_name = ebn.get(name, name) if ebn else name\n",
     "            escaped_name = name if name in ebn else ebn.get(name, name)\n"), "C04-R4")
+
+# ---- R2: locals in _init_bind_translate / alias of the translate regex
+R.mutant("benign-r2-init-bind-translate-through-a-local", COMP, sub(
+    "        reg = re.escape(\"\".join(cls.bindname_escape_characters))\n        cls._bind_translate_re = re.compile(f\"[{reg}]\")\n"
+    "        cls._bind_translate_chars = cls.bindname_escape_characters\n",
+    "        chars = cls.bindname_escape_characters\n        pattern = \"[%s]\" % re.escape(\"\".join(chars))\n"
+    "        cls._bind_translate_chars = chars\n        cls._bind_translate_re = re.compile(pattern)\n"), None)
+R.mutant("benign-r2-translate-regex-alias", COMP, sub(
+    "            if self._bind_translate_re.search(name):\n"
+    "                # not quite the translate use case as we want to\n"
+    "                # also get a quick boolean if we even found\n"
+    "                # unusual characters in the name\n"
+    "                new_name = self._bind_translate_re.sub(\n",
+    "            translate_re = self._bind_translate_re\n"
+    "            if translate_re.search(name):\n"
+    "                new_name = translate_re.sub(\n"), None)
+R.mutant("r2-translate-table-from-the-base-class", COMP, sub(
+    "        cls._bind_translate_chars = cls.bindname_escape_characters\n",
+    "        cls._bind_translate_chars = SQLCompiler.bindname_escape_characters\n"), "C04-R2")
+R.mutant("benign-r2-translation-in-a-helper-method", COMP, chain(
+    sub("            if self._bind_translate_re.search(name):\n"
+        "                # not quite the translate use case as we want to\n"
+        "                # also get a quick boolean if we even found\n"
+        "                # unusual characters in the name\n"
+        "                new_name = self._bind_translate_re.sub(\n"
+        "                    lambda m: self._bind_translate_chars[m.group(0)],\n"
+        "                    name,\n"
+        "                )\n",
+        "            if self._bind_translate_re.search(name):\n"
+        "                new_name = self._escape_bind_name(name)\n"),
+    sub("    def _dispatch_independent_ctes(self, stmt, kw):\n",
+        "    def _escape_bind_name(self, name):\n"
+        "        return self._bind_translate_re.sub(\n"
+        "            lambda m: self._bind_translate_chars[m.group(0)], name\n"
+        "        )\n\n"
+        "    def _dispatch_independent_ctes(self, stmt, kw):\n")), None)
